@@ -1,8 +1,8 @@
 package main
 
 import (
-	"encoding/binary"
 	"bytes"
+	"encoding/binary"
 	"errors"
 	"fmt"
 	"io"
@@ -115,6 +115,7 @@ type scriptSrc struct {
 	failAt      int
 	eofWithData bool
 	wrapEOF     bool // the injected error wraps io.ErrUnexpectedEOF (it is still not an end of stream)
+	wrapPlain   bool // … or io.EOF itself
 }
 
 // wrappedEOF is the injected failure in a form that `errors.Is(err, io.ErrUnexpectedEOF)` accepts: a
@@ -125,9 +126,22 @@ func (wrappedEOF) Error() string        { return "injected failure (wraps unexpe
 func (wrappedEOF) Unwrap() error        { return io.ErrUnexpectedEOF }
 func (wrappedEOF) Is(target error) bool { return target == errInjected }
 
-// srcFail parses a source failure point: "<k>" or "<k>~" (the wrapped flavour)
-func srcFail(tok string) (int, bool) {
-	return atoi(strings.TrimSuffix(tok, "~")), strings.HasSuffix(tok, "~")
+type wrappedPlainEOF struct{}
+
+func (wrappedPlainEOF) Error() string        { return "injected failure (wraps EOF)" }
+func (wrappedPlainEOF) Unwrap() error        { return io.EOF }
+func (wrappedPlainEOF) Is(target error) bool { return target == errInjected }
+
+// srcFail parses a source failure point: "<k>", "<k>~" (wraps io.ErrUnexpectedEOF) or "<k>^" (wraps io.EOF);
+// the second result is 0, 1 or 2 accordingly
+func srcFail(tok string) (int, int) {
+	switch {
+	case strings.HasSuffix(tok, "~"):
+		return atoi(strings.TrimSuffix(tok, "~")), 1
+	case strings.HasSuffix(tok, "^"):
+		return atoi(strings.TrimSuffix(tok, "^")), 2
+	}
+	return atoi(tok), 0
 }
 
 func (s *scriptSrc) pos() int   { s.mu.Lock(); defer s.mu.Unlock(); return s.rpos }
@@ -141,6 +155,9 @@ func (s *scriptSrc) Read(p []byte) (int, error) {
 	if s.failAt >= 0 && k >= s.failAt {
 		if s.wrapEOF {
 			return 0, wrappedEOF{}
+		}
+		if s.wrapPlain {
+			return 0, wrappedPlainEOF{}
 		}
 		return 0, errInjected
 	}
@@ -272,13 +289,13 @@ func parseOptsGo(s string) (opts []lz4.Option, kv map[string]int) {
 
 // frame tracks what one frame (between Resets) should contain, for the oracle.
 type frameTrack struct {
-	data   []byte
-	clean  bool // every op succeeded so far
-	closed bool
+	data    []byte
+	clean   bool // every op succeeded so far
+	closed  bool
 	atClose string // sink summary when the first Close returned
-	flushed bool // a Flush cut a block short (legacy: blocks then hold less than 8 MiB)
-	usedRF  bool // ReadFrom delivered data (it ends a source that is a multiple of the block size with an empty block)
-	opts   map[string]int
+	flushed bool   // a Flush cut a block short (legacy: blocks then hold less than 8 MiB)
+	usedRF  bool   // ReadFrom delivered data (it ends a source that is a multiple of the block size with an empty block)
+	opts    map[string]int
 }
 
 // freshFrame: the bytes a NEW Writer with these options emits for one Write of data followed by Close
@@ -349,6 +366,21 @@ func implW(f []string, o *oracleSink) string {
 					var b bytes.Buffer
 					_, err := lz4.NewReader(bytes.NewReader(all)).WriteTo(&b)
 					return b.Bytes(), err
+				},
+				func() ([]byte, error) { // sequential, a buffer with room for more than a block at every call
+					zr := lz4.NewReader(bytes.NewReader(all))
+					buf := make([]byte, 9<<20)
+					var out []byte
+					for {
+						n, err := zr.Read(buf)
+						out = append(out, buf[:n]...)
+						if err == io.EOF {
+							return out, nil
+						}
+						if err != nil {
+							return out, err
+						}
+					}
 				},
 				func() ([]byte, error) {
 					zr := lz4.NewReader(bytes.NewReader(all))
@@ -463,9 +495,10 @@ func implW(f []string, o *oracleSink) string {
 			case "rf":
 				d := loadBlob(p[1])
 				fa, wr := srcFail(p[3])
-				src := &scriptSrc{data: d, chunk: atoi(p[2]), failAt: fa, wrapEOF: wr, eofWithData: p[4] == "1"}
+				src := &scriptSrc{data: d, chunk: atoi(p[2]), failAt: fa, wrapEOF: wr == 1, wrapPlain: wr == 2, eofWithData: p[4] == "1"}
 				n, err := zw.ReadFrom(src)
 				tr.usedRF = true
+				tr.flushed = true // ReadFrom emits its last, short, chunk as a block of its own, as a Flush does
 				if err != nil || int(n) != len(d) {
 					tr.clean = false
 				}
@@ -547,7 +580,7 @@ func implR(f []string, o *oracleSink) string {
 	data := loadBlob(blobRef)
 	mk := func(d []byte) *scriptSrc {
 		fa, wr := srcFail(f[4])
-		return &scriptSrc{data: d, chunk: atoi(f[3]), failAt: fa, wrapEOF: wr, eofWithData: f[5] == "1"}
+		return &scriptSrc{data: d, chunk: atoi(f[3]), failAt: fa, wrapEOF: wr == 1, wrapPlain: wr == 2, eofWithData: f[5] == "1"}
 	}
 	src := mk(data)
 	zr := lz4.NewReader(src)
@@ -692,7 +725,10 @@ func implR(f []string, o *oracleSink) string {
 	}
 	var ms1 runtime.MemStats
 	runtime.ReadMemStats(&ms1)
-	if grow := int64(ms1.HeapSys) - int64(ms0.HeapSys); grow > int64(len(data))*4+(160<<20) {
+	// heap taken from the OS during the session.  Short-lived garbage of a long input (one small object per
+	// block, collected later) scales with the input and is allowed for; an allocation sized by a field of a
+	// short hostile input is not
+	if grow := int64(ms1.HeapSys) - int64(ms0.HeapSys); grow > int64(len(data))*200+(160<<20) {
 		notes = append(notes, fmt.Sprintf("ALLOC-EXCESS:%dMiB", grow>>20))
 	}
 	if haveP && failureHit {
